@@ -6,10 +6,10 @@ W=/tmp/tryseed_$$
 git -C /repo worktree add -q --detach $W HEAD || exit 3
 trap 'git -C /repo worktree remove --force $W' EXIT
 cd $W
-PYTHONPATH=$W /venv/bin/python "$demo" >/dev/null 2>&1; echo "demo without change: rc=$?"
+OMP_NUM_THREADS=1 OPENBLAS_NUM_THREADS=1 PYTHONPATH=$W /venv/bin/python "$demo" >/dev/null 2>&1; echo "demo without change: rc=$?"
 git apply "$patch" || { echo "patch does not apply"; exit 3; }
-PYTHONPATH=$W /venv/bin/python "$demo" >/dev/null 2>&1; echo "demo with change:    rc=$?"
-PYTHONPATH=$W /venv/bin/python -m pytest -q -p no:cacheprovider --timeout=900 2>&1 | tail -1
+OMP_NUM_THREADS=1 OPENBLAS_NUM_THREADS=1 PYTHONPATH=$W /venv/bin/python "$demo" >/dev/null 2>&1; echo "demo with change:    rc=$?"
+OMP_NUM_THREADS=1 OPENBLAS_NUM_THREADS=1 PYTHONPATH=$W /venv/bin/python -m pytest -q -p no:cacheprovider --timeout=900 2>&1 | tail -1
 cd /verif
 for p in "$@"; do
   out=$(VERIF_REPO=$W ./vcheck $p quick 2>&1); rc=$?
